@@ -231,6 +231,32 @@ func Catalogue() []Edit {
 		j := anyJob(s, t, func(j *Job) bool { return j.Auth.Kind != "" && j.Auth.Kind != "bearer_file" })
 		return j != nil && editAuth(&j.Auth)
 	})
+	// two places of the same kind exchange their (different) secrets: nothing is added or removed, only moved
+	add("secrets/exchanged-between-two-places", func(s *Spec, t *rapid.T) bool {
+		var places []*Auth
+		for i := range s.Jobs {
+			places = append(places, &s.Jobs[i].Auth)
+		}
+		for i := range s.RemoteWrite {
+			places = append(places, &s.RemoteWrite[i].Auth)
+		}
+		for i := range s.RemoteRead {
+			places = append(places, &s.RemoteRead[i].Auth)
+		}
+		for i := range s.AMs {
+			places = append(places, &s.AMs[i].Auth)
+		}
+		for i := range places {
+			for k := i + 1; k < len(places); k++ {
+				a, b := places[i], places[k]
+				if a.Kind != "" && a.Kind == b.Kind && a.Kind != "bearer_file" && a.Secret != b.Secret {
+					a.Secret, b.Secret = b.Secret, a.Secret
+					return true
+				}
+			}
+		}
+		return false
+	})
 	add("job/basic_auth/username", func(s *Spec, t *rapid.T) bool {
 		j := anyJob(s, t, func(j *Job) bool { return j.Auth.Kind == "basic" })
 		if j == nil {
